@@ -28,7 +28,7 @@ def real_deps(ctx: Ctx, items):
     batches = [items[i:i + size] for i in range(0, len(items), size)]
     res = [None] * len(batches)
     index = {id(b): i for i, b in enumerate(batches)}
-    for b, status, r in pmap(_real_batch, batches, timeout=120):
+    for b, status, r in pmap(_real_batch, batches, timeout=300):
         i = index[id(b)]
         if status == "ok":
             res[i] = r
@@ -36,6 +36,9 @@ def real_deps(ctx: Ctx, items):
             res[i] = ["EXC:timeout"] * len(b)
         else:
             raise Inconclusive(f"worker failed: {r[:300]}")
+    for i, b in enumerate(batches):
+        if res[i] is None:  # never reported (lost worker): run it here
+            res[i] = _real_batch(b)
     return [x for r in res for x in r]
 
 
